@@ -5,7 +5,7 @@ ID = "C10"
 HARNESS = "c10"
 N_CASES = {"quick": 1500, "thorough": 40000}
 N_SEARCH = {"quick": 1, "thorough": 2}
-SHARD = 150
+SHARD = 375
 RULE = ("generated data files (one zone with one located A record per location and name; 16 names with an exact '8' map each "
         "over the subnet shapes none / only ::/0 / only 0.0.0.0/0 / both / nested, adjacent and split IPv4 / nested and adjacent IPv6 / "
         "mixed / halves / random laminar sets; wildcard '8' and 'M' maps, an exact map beating the wildcard, an '8' map without subnets, "
